@@ -386,8 +386,7 @@ def run(tier, seed):
                 'hold-65535 peer OPEN), plus every peer OPEN variant (version x 8 AS encodings x hold %s x caps full/none) after no history '
                 'and after one accepted session; each executed on the real objects; distinct_nontrivial = distinct (history, peer OPEN variant) pairs'
                 % (list(AS_VALUES), list(HOLD_CFG), len(cfgs), list(HIST_KINDS), list(PEER_HOLDS)),
-        'samples': [{'cfg': {'local_as': 65536, 'remote_as': 1, 'hold': 3, 'four_bytes_as': False},
-                     'history': ['rej_h1', 'poor'], 'peer_open': {'as_mode': 'trans-right', 'hold': 65535}}],
+        'samples': [{'cfg': t[0], 'history': list(j[0]), 'peer_open': j[1]} for t in report.pick(tasks, seed, 3) for j in report.pick(t[1], seed, 1)],
         'configs': len(cfgs), 'histories': len(hs), 'peer_open_variants': len(allv), 'exhaustive': True,
         'violation_keys': summary,
     }
